@@ -216,14 +216,28 @@ FAMILIES = [
 ]
 
 
+_SEARCH_MEMO = {}
+
+
 def search_counterexample(obligation, repo, seed=0):
     fam = None
     for prefix, fn in FAMILIES:
         if obligation.startswith(prefix):
             fam = fn(seed)
+            memo_key = (fn.__name__, repo, seed)
             break
     if fam is None:
         return None, "no executable oracle is registered for this obligation"
+    # one search per family and tree within a run: several failed obligations of one family are
+    # witnessed by the same failing input
+    if memo_key in _SEARCH_MEMO:
+        return _SEARCH_MEMO[memo_key]
+    res = _search_family(fam, repo)
+    _SEARCH_MEMO[memo_key] = res
+    return res
+
+
+def _search_family(fam, repo):
     with ReplayBuild(repo) as rb:
         for cex in fam:
             out = rb.run(cex_to_text(cex))
